@@ -44,3 +44,33 @@ package labelindex
 //@   ghost at call OnMemberAdded: check arg0 == ipSetID
 //@   ghost at call OnMemberRemoved: check arg0 == ipSetID
 //@   ghost at call Remove: check arg1 == ipSetID
+
+//@ -- overlap suppression (thin): the trie always records the CIDR, whether or not it is announced; a CIDR is
+//@ -- announced exactly when no recorded CIDR covered it BEFORE it was recorded, and withdrawn exactly when none
+//@ -- covers it AFTER it was deleted; the descendants it masks are collected while it is still recorded.
+//@ ghost c04Cov bool
+//@ ghost c04Recorded bool
+//@ ghost c04Deleted bool
+//@ ghost c04Masked bool
+//@ func (*memberDeduplicator).Add
+//@   property C04
+//@   option safety off
+//@   requires cidr != nil && !c04Recorded && !c04Masked
+//@   ghost at call Covers: check !c04Recorded && arg1 == cidr ; c04Cov = res
+//@   ghost at call Update: check arg1 == cidr ; c04Recorded = true
+//@   ghost at call ClosestDescendants: check c04Recorded && !c04Cov && arg2 == cidr ; c04Masked = true
+//@   ensures c04Recorded
+//@   ensures (res0 == nil) == c04Cov
+//@   ensures c04Cov ==> len(res1) == 0
+//@   ensures !c04Cov ==> res0 == cidr && c04Masked
+//@ func (*memberDeduplicator).Remove
+//@   property C04
+//@   option safety off
+//@   requires cidr != nil && !c04Deleted && !c04Masked
+//@   ghost at call ClosestDescendants: check !c04Deleted && arg2 == cidr ; c04Masked = true
+//@   ghost at call Delete: check c04Masked && arg1 == cidr ; c04Deleted = true
+//@   ghost at call Covers: check c04Deleted && arg1 == cidr ; c04Cov = res
+//@   ensures c04Deleted
+//@   ensures (res0 == nil) == c04Cov
+//@   ensures c04Cov ==> len(res1) == 0
+//@   ensures !c04Cov ==> res0 == cidr
